@@ -8,7 +8,11 @@ Obs(e) == [fn |-> e.fn, ep |-> e.ep, name |-> e.name, result |-> e.result, reqna
 \* one event per generation: the document projected onto its entries, plus the judgements TLC cannot derive (DESIGN 3.4):
 \* JSON-encodable, valid against the official meta-schema, no dangling $ref, user's objects deep-equal before / after
 TGenerate == /\ IsEvent("Generate") /\ Generate
-             /\ {Obs(E.entries[k]) : k \in DOMAIN E.entries} = DocOf(heap) /\ Len(E.entries) = Cardinality(DocOf(heap))
+             /\ LET want == DocOfSub(heap, Sub(Len(docs) + 1)) IN
+                  {Obs(E.entries[k]) : k \in DOMAIN E.entries} = want /\ Len(E.entries) = Cardinality(want)
+             \* pure function of the registry: the document equals the one a freshly built, identically configured specification
+             \* object generates for the same registry (whatever this object generated before)
+             /\ E.fresh_same = TRUE
              /\ E.json_ok = TRUE /\ (E.meta_ok = TRUE \/ MetaMayFail) /\ E.refs_closed = TRUE /\ E.heap_same = TRUE
 TraceNext == TGenerate
 TraceConstraint == Idempotent /\ Isolated /\ ExactlyOnce /\ Progress
